@@ -242,7 +242,7 @@ pub struct EngC {
     pub n_leaves: usize,
     pub bv_texts: HashSet<String>,
     pub probes: Vec<Option<Range>>, // exact range of every universe version
-    seen2: Vec<Mutex<HashSet<u64>>>,
+    pub seen2: Vec<Mutex<HashSet<u64>>>,
 }
 
 fn fnv64(s: &str) -> u64 {
@@ -290,6 +290,10 @@ pub fn leaf_texts(tier: &str) -> Vec<String> {
         }
     }
     out.push("*".to_string());
+    // bounds carrying build metadata (must never influence any answer; Version == ignores it)
+    for t in [">=1.0.0+b", "1.0.0+b", "<=2.0.0+b.1", ">1.0.0+b <2.0.0+c"] {
+        out.push(t.to_string());
+    }
     let mut one: Vec<String> = vec![];
     for v in &tv {
         for op in ["<", "<=", ">", ">=", ""] {
@@ -1051,12 +1055,13 @@ pub struct RunOut {
     pub states_d0: usize,
     pub states_d1: usize,
     pub distinct_d2: u64,
+    pub distinct_d3: u64,
     pub depth_completed: u8,
     pub samples: Vec<Value>,
 }
 
 /// Full exploration for one property mask.
-pub fn explore(prop: &str, tier: &str, sink: &Sink, depth2: bool, triples: bool) -> (EngC, RunOut) {
+pub fn explore(prop: &str, tier: &str, sink: &Sink, depth2: bool, triples: bool, depth3: bool) -> (EngC, RunOut) {
     let mask = Mask::of(prop);
     let mut e = EngC::new(tier);
     let n0 = e.states.len();
@@ -1188,9 +1193,11 @@ pub fn explore(prop: &str, tier: &str, sink: &Sink, depth2: bool, triples: bool)
     }
     // ---- depth 2: S1 x S1, results checked, counted, hashed (not stored)
     let mut depth_completed = 1;
+    let mut distinct_d3 = 0u64;
     if depth2 {
         let ctx = PairCtx { e: &e, sink, mask, full: false, register: false };
         let ctx_state = PairCtx { e: &e, sink, mask, full: true, register: false };
+        let keep2: Mutex<Vec<(St, bool, usize, usize)>> = Mutex::new(vec![]);
         let cs: Vec<Counters> = (0..n1)
             .into_par_iter()
             .map(|i| {
@@ -1215,6 +1222,9 @@ pub fn explore(prop: &str, tier: &str, sink: &Sink, depth2: bool, triples: bool)
                             };
                             if let Ok(st) = EngC::make_state(&e.u, r, Origin::Int(i, j), 2) {
                                 ctx_state.check_state(&st, &mk, &mut c);
+                                if depth3 {
+                                    keep2.lock().unwrap().push((st, is_int, i, j));
+                                }
                             }
                         }
                     }
@@ -1226,6 +1236,64 @@ pub fn explore(prop: &str, tier: &str, sink: &Sink, depth2: bool, triples: bool)
             total = total.merge(c);
         }
         depth_completed = 2;
+        // ---- depth 3 (one leaf operand): every new depth-2 state against every leaf, both orders
+        if depth3 {
+            let mut s2 = keep2.into_inner().unwrap();
+            s2.sort_by(|a, b| (a.0.key.len(), &a.0.key).cmp(&(b.0.key.len(), &b.0.key)));
+            let ex = |k: usize| {
+                let (_, is_int, i, j) = &s2[k];
+                if *is_int {
+                    json!({"intersect": [e.expr_json(*i), e.expr_json(*j)]})
+                } else {
+                    json!({"difference": [e.expr_json(*i), e.expr_json(*j)]})
+                }
+            };
+            let seen3: Vec<Mutex<HashSet<u64>>> = (0..256).map(|_| Mutex::new(HashSet::new())).collect();
+            let cs: Vec<Counters> = (0..s2.len())
+                .into_par_iter()
+                .map(|k| {
+                    let mut c = Counters::default();
+                    let a = &s2[k].0;
+                    for l in 0..n0 {
+                        let b = &e.states[l];
+                        for flip in [false, true] {
+                            let prod = if !flip {
+                                ctx.check_pair(a, b, false, false, &|| ex(k), &|| e.expr_json(l), &mut c)
+                            } else {
+                                ctx.check_pair(b, a, false, false, &|| e.expr_json(l), &|| ex(k), &mut c)
+                            };
+                            for (is_int, res) in [(true, prod.0), (false, prod.1)] {
+                                let Some(res) = res else { continue };
+                                if e.index.contains_key(&res.key) {
+                                    continue;
+                                }
+                                let h = fnv64(&res.key);
+                                if e.seen2[(h & 255) as usize].lock().unwrap().contains(&h) {
+                                    continue;
+                                }
+                                if !seen3[(h & 255) as usize].lock().unwrap().insert(h) {
+                                    continue;
+                                }
+                                let r = res.r.unwrap();
+                                let mk = || {
+                                    let (x, y) = if !flip { (ex(k), e.expr_json(l)) } else { (e.expr_json(l), ex(k)) };
+                                    if is_int { json!({"intersect": [x, y]}) } else { json!({"difference": [x, y]}) }
+                                };
+                                if let Ok(st) = EngC::make_state(&e.u, r, Origin::Int(0, 0), 3) {
+                                    ctx_state.check_state(&st, &mk, &mut c);
+                                }
+                            }
+                        }
+                    }
+                    c
+                })
+                .collect();
+            for c in cs {
+                total = total.merge(c);
+            }
+            depth_completed = 3;
+            distinct_d3 = seen3.iter().map(|m| m.lock().unwrap().len() as u64).sum();
+        }
     }
     let distinct_d2 = e.distinct_depth2();
     let out = RunOut {
@@ -1233,6 +1301,7 @@ pub fn explore(prop: &str, tier: &str, sink: &Sink, depth2: bool, triples: bool)
         states_d0: n0,
         states_d1: n1,
         distinct_d2,
+        distinct_d3,
         depth_completed,
         samples,
     };
